@@ -30,6 +30,7 @@ package query_context
 //@   requires m != nil && atMostOneOPT(m.Extra) && okRRs(m.Extra)
 //@   modifies m.Extra, elems(m.Extra)
 //@   ensures noOPT(m.Extra)
+//@   ensures okRRs(m.Extra) && (old(wfMsg(m)) ==> wfMsg(m))
 //@   ensures result == nil ==> old(noOPT(m.Extra)) && m.Extra == old(m.Extra) && sameElems(old(m.Extra))
 //@   ensures old(noOPT(m.Extra)) ==> result == nil
 //@   ensures result != nil ==> len(m.Extra) == old(len(m.Extra)) - 1 && (exists k int :: 0 <= k && k < old(len(m.Extra)) && old(isOPT(m.Extra[k])) && old(m.Extra[k].val) == result)
@@ -78,6 +79,7 @@ package query_context
 //@   modifies ctx.resp, ctx.upstreamOpt, m.Extra, elems(m.Extra)
 //@   ensures ctx.resp == m
 //@   ensures m == nil ==> ctx.upstreamOpt == nil
+//@   ensures m != nil ==> okRRs(m.Extra) && (old(wfMsg(m)) ==> wfMsg(m))
 //@   ensures m != nil ==> noOPT(m.Extra)
 //@   ensures m != nil && ctx.upstreamOpt != nil ==> len(m.Extra) == old(len(m.Extra)) - 1 && (exists k int :: 0 <= k && k < old(len(m.Extra)) && old(isOPT(m.Extra[k])) && old(m.Extra[k].val) == ctx.upstreamOpt)
 //@   ensures m != nil && ctx.upstreamOpt == nil ==> old(noOPT(m.Extra)) && len(m.Extra) == old(len(m.Extra))
